@@ -57,6 +57,10 @@ def coverage(prop, executed, rejected, tier):
         "valence_atoms_judged": int(total.get("valence_judged", 0)),
         "valence_atoms_unjudged": int(total.get("valence_unjudged", 0)),
         "resolver_side_graphs_monitored": int(total.get("resolver_graphs", 0)),
+        "resolver_side_drivers": {name: int(total.get("resolver_driver_%d" % k, 0)) for k, name in
+                                  enumerate(["resolve_all", "manual", "resolve_iter", "manual then resolve_iter"])},
+        "hydrogen_counts_by_construction": int(total.get("hcount_atoms", 0)),
+        "kekulised_ring_bonds_seen": int(total.get("kekulised_ring_bonds", 0)),
         "simulated_time": {"clock_reads": int(total.get("clock_reads", 0)), "span_ns": int(total.get("clock_span_ns", 0))},
         "components": {"real": ["cgsmiles", "pysmiles", "networkx", "numpy", "stdlib random algorithms"],
                        "stubbed": ["entropy source under stdlib random (owned-entropy mode)", "clock (cgsmiles.sample.time)"]},
